@@ -1,7 +1,7 @@
 #!/bin/bash
 # usage: seedtest.sh <PROP> <worktree> <letter> [tier]
 # Confirms a seeded change in the scratch worktree (tests unchanged, demo fails with / passes without), then runs the
-# property's check against /repo with the change applied and reverts it.  Results go to /verif/seeded/<PROP>-<letter>/.
+# property's check against the worktree (PRYSM_REPO) with the change applied.  Results go to /verif/seeded/<PROP>-<letter>/.
 PROP=$1; WT=$2; L=$3; TIER=${4:-quick}
 OUT=/verif/seeded/$PROP-$L
 mkdir -p $OUT
@@ -13,12 +13,12 @@ PYTHONPATH=$WT /venv/bin/python _demo_run.py > $OUT/demo_clean.log 2>&1; CLEAN=$
 git apply $OUT/patch.diff
 PYTHONPATH=$WT /venv/bin/python _demo_run.py > $OUT/demo_mutant.log 2>&1; MUT=$?
 TESTS=$(PYTHONPATH=$WT /venv/bin/python -m pytest -q -p no:cacheprovider --continue-on-collection-errors 2>&1 | tail -1)
-git checkout -q -- .; rm -f _demo_run.py
+rm -f _demo_run.py
 echo "demo clean exit=$CLEAN mutant exit=$MUT tests: $TESTS"
 cd /verif
-git -C /repo apply $OUT/patch.diff || { echo "cannot apply to /repo"; exit 2; }
-timeout 3000 ./check $PROP --tier $TIER > $OUT/check.log 2>&1; RC=$?
-git -C /repo checkout -q -- .
+# the check runs against the scratch worktree with the change applied (PRYSM_REPO); /repo itself is never touched
+PRYSM_REPO=$WT timeout 3000 ./check $PROP --tier $TIER > $OUT/check.log 2>&1; RC=$?
+git -C $WT checkout -q -- .
 NV=$(grep -c "^VIOLATION" $OUT/check.log)
 echo "check exit=$RC violations=$NV :: $(tail -1 $OUT/check.log)"
 python3 - <<PY
